@@ -44,6 +44,49 @@ type c35Case struct {
 	// width and other field metadata — near enough to be confused with it by
 	// anything that remembers schemas by a digest.
 	Twin *lib.BatchIPC `json:"twin,omitempty"`
+	// Hist: writes made on the same segment, through the same handles, before
+	// the tested write. A step stores the tested batch itself (Src -1) or
+	// Pool[Src] — every write of one source carries the same *arrow.Schema
+	// object, the way a handler reuses its output schema — optionally cut to
+	// its first Rows rows, resolves it like the tested write, and frees it
+	// again unless Keep.
+	Pool []lib.BatchIPC `json:"pool,omitempty"`
+	Hist []c35Step      `json:"hist,omitempty"`
+}
+
+type c35Step struct {
+	Src  int  `json:"src"`
+	Rows int  `json:"rows,omitempty"`
+	Keep bool `json:"keep,omitempty"`
+}
+
+// siblingSchema is s with one field renamed to another name of the same
+// length: a schema whose encoding has the size of s's but not its content.
+func siblingSchema(t *rapid.T, s *arrow.Schema) *arrow.Schema {
+	fields := append([]arrow.Field{}, s.Fields()...)
+	if len(fields) == 0 {
+		return arrow.NewSchema([]arrow.Field{{Name: "only", Type: arrow.PrimitiveTypes.Int64}}, nil)
+	}
+	i := rapid.IntRange(0, len(fields)-1).Draw(t, "sibfield")
+	name := []rune(fields[i].Name)
+	if len(name) == 0 {
+		name = []rune("q")
+	} else {
+		k := rapid.IntRange(0, len(name)-1).Draw(t, "sibpos")
+		if name[k] == 'q' {
+			name[k] = 'z'
+		} else {
+			name[k] = 'q'
+		}
+	}
+	fields[i].Name = string(name)
+	for j, f := range fields {
+		if j != i && f.Name == fields[i].Name {
+			fields[i].Name += "q"
+		}
+	}
+	md := s.Metadata()
+	return arrow.NewSchema(fields, &md)
 }
 
 // ---- schema shapes ----
@@ -203,6 +246,7 @@ func genC35(t *rapid.T) c35Case {
 	default:
 		c.SegData = pre + enc + 4096 + rapid.IntRange(64, 1<<20).Draw(t, "seg_ample")
 	}
+	genC35History(t, &c, schema)
 	n := rapid.IntRange(0, 6).Draw(t, "nptrs")
 	for i := 0; i < n; i++ {
 		p := c35Ptr{Kind: c35PtrKinds[rapid.IntRange(0, len(c35PtrKinds)-1).Draw(t, "pkind")]}
@@ -221,6 +265,51 @@ func genC35(t *rapid.T) c35Case {
 		c.Ptrs = append(c.Ptrs, p)
 	}
 	return c
+}
+
+// genC35History draws, for about four cases in ten, 1-2 other batches (a
+// same-size sibling of the tested schema, an unrelated plain schema, one with a
+// top-level dictionary) and 1-6 earlier writes on the segment that alternate
+// between them and the tested batch.
+func genC35History(t *rapid.T, c *c35Case, schema *arrow.Schema) {
+	if rapid.IntRange(0, 9).Draw(t, "hist?") > 3 {
+		return
+	}
+	np := rapid.IntRange(1, 2).Draw(t, "npool")
+	for i := 0; i < np; i++ {
+		var ps *arrow.Schema
+		switch k := rapid.IntRange(0, 5).Draw(t, "poolkind"); {
+		case k <= 1:
+			ps = siblingSchema(t, schema)
+		case k <= 3:
+			ps = lib.GenSchema(t, 1, 4, 1, lib.TypeOpts{NoDict: true})
+		default:
+			ps = injectField(t, lib.GenSchema(t, 0, 2, 1, lib.TypeOpts{NoDict: true}), arrow.Field{Name: "hdict", Type: c35Dict, Nullable: true})
+		}
+		c.Pool = append(c.Pool, lib.PackBatch(lib.GenBatch(t, ps, rapid.IntRange(1, 12).Draw(t, "poolrows"))))
+	}
+	ns := rapid.IntRange(1, 6).Draw(t, "nhist")
+	grow := 0
+	for i := 0; i < ns; i++ {
+		st := c35Step{Src: rapid.IntRange(-1, np-1).Draw(t, "histsrc")}
+		if i == 0 && rapid.Bool().Draw(t, "histfirstself") {
+			st.Src = -1
+		}
+		if rapid.IntRange(0, 3).Draw(t, "histcut") == 0 {
+			st.Rows = rapid.IntRange(1, 8).Draw(t, "histrows")
+		}
+		st.Keep = rapid.IntRange(0, 3).Draw(t, "histkeep") == 0
+		if st.Keep {
+			if st.Src < 0 {
+				grow += len(c.Batch.IPC) + 256
+			} else {
+				grow += len(c.Pool[st.Src].IPC) + 256
+			}
+		}
+		c.Hist = append(c.Hist, st)
+	}
+	// the segment classes were drawn for the tested write alone
+	c.SegData += grow
 }
 
 // ---- reference classifier for pointer strings ----
@@ -464,6 +553,80 @@ func runC35(c c35Case) (out lib.Outcome) {
 	if c.FreeFirst && len(c.Pre) > 0 {
 		_ = vgirpc.VerifShmFree(seg, firstPre)
 	}
+	att, aerr := vgirpc.ShmAttach(seg.Name(), size, false)
+	if aerr != nil {
+		out.Violate("C35/attach-refused", "ShmAttach: %v", aerr)
+		return
+	}
+	defer att.Close()
+
+	// ---- earlier writes on the same segment ----
+	var written []int // sources stored so far, in order (-1: the tested batch)
+	var poolShape []string
+	reusedAfterOther := func(src int) (reused, dictBetween bool) {
+		last := -1
+		for i, w := range written {
+			if w == src {
+				last = i
+			}
+		}
+		if last < 0 {
+			return false, false
+		}
+		for _, w := range written[last+1:] {
+			if w != src {
+				reused = true
+				if w >= 0 && w < len(poolShape) {
+					// (a dictionary batch is stored and read by other routes than a plain one)
+					dictBetween = dictBetween || poolShape[w] != "none"
+				}
+			}
+		}
+		return
+	}
+	if len(c.Hist) > 0 {
+		out.Label("history")
+		pool := make([]lib.BatchM, len(c.Pool))
+		for i := range c.Pool {
+			pool[i] = c.Pool[i].Unpack()
+			defer pool[i].Rec.Release()
+			poolShape = append(poolShape, dictShape(pool[i].Rec.Schema()))
+		}
+		for i, st := range c.Hist {
+			src := orig.Rec
+			if st.Src >= 0 {
+				src = pool[st.Src].Rec
+			}
+			if st.Rows > 0 && int64(st.Rows) < src.NumRows() {
+				src = src.NewSlice(0, int64(st.Rows))
+			}
+			off, stored, key, msg := c35StoreAndResolve(src, seg, att)
+			if key != "" {
+				out.Violate(key, "history step %d of %v (earlier sources %v; -1 is the tested batch %s): %s", i, c.Hist, written, c.Batch.Desc, msg)
+				return
+			}
+			if !stored {
+				out.Label("history-no-fit")
+				continue
+			}
+			if reused, _ := reusedAfterOther(st.Src); reused {
+				out.Label("history:schema-object-reused-after-another")
+			}
+			written = append(written, st.Src)
+			if !st.Keep {
+				if ferr := att.FreeOffset(off); ferr != nil {
+					out.Violate("C35/free-after-resolve", "history step %d: FreeOffset(%d) after resolving: %v", i, off, ferr)
+					return
+				}
+			}
+		}
+	}
+	if reused, dictBetween := reusedAfterOther(-1); reused {
+		out.Label("tested-schema-object-reused-after-another")
+		if dictBetween {
+			out.Label("tested-schema-object-reused-after-dictionary-read")
+		}
+	}
 	before := vgirpc.VerifShmAllocs(seg)
 
 	// ---- write ----
@@ -527,12 +690,6 @@ func runC35(c c35Case) (out lib.Outcome) {
 	sort.Strings(wantMeta)
 
 	// ---- resolve through another attachment ----
-	att, aerr := vgirpc.ShmAttach(seg.Name(), size, false)
-	if aerr != nil {
-		out.Violate("C35/attach-refused", "ShmAttach: %v", aerr)
-		return
-	}
-	defer att.Close()
 	wireRec := lib.WithMeta(wire.Rec, wire.Meta.Keys(), wire.Meta.Values())
 	var res arrow.RecordBatch
 	var relOff uint64
@@ -543,11 +700,15 @@ func runC35(c c35Case) (out lib.Outcome) {
 		return
 	}
 	if rerr != nil {
-		out.Violate(lib.Keyf("C35", "roundtrip-refused", shape), "valid pointer (off %d, len %d) to %s not resolved: %v", off, n, c.Batch.Desc, rerr)
+		out.Violate(lib.Keyf("C35", "roundtrip-refused", shape), "valid pointer (off %d, len %d) to %s not resolved (sources stored on the segment before: %v): %v", off, n, c.Batch.Desc, written, rerr)
 		return
 	}
 	if d := lib.BatchDiff(orig.Rec, res); d != "" {
-		out.Violate(lib.Keyf("C35", "roundtrip-differs", shape), "batch read back from shm differs (%s): %s", c.Batch.Desc, d)
+		out.Violate(lib.Keyf("C35", "roundtrip-differs", shape), "batch read back from shm differs (%s; sources stored on the segment before: %v): %s", c.Batch.Desc, written, d)
+		return
+	}
+	if d := strictSchemaDiff(orig.Rec.Schema(), res.Schema()); d != "" {
+		out.Violate(lib.Keyf("C35", "roundtrip-schema-detail", shape), "schema read back from shm differs from the written one (%s; sources stored before: %v): %s", c.Batch.Desc, written, d)
 		return
 	}
 	for i, f := range orig.Rec.Schema().Fields() {
@@ -670,6 +831,51 @@ func runC35(c c35Case) (out lib.Outcome) {
 	return
 }
 
+// c35StoreAndResolve is the round-trip clause for one batch: MaybeWriteToShm,
+// the pointer through my codec, ResolveShmBatch through the other attachment,
+// equal in schema and values. stored=false: the batch stayed inline.
+func c35StoreAndResolve(src arrow.RecordBatch, seg, att *vgirpc.ShmSegment) (off uint64, stored bool, key, msg string) {
+	shape := dictShape(src.Schema())
+	desc := fmt.Sprintf("%s rows=%d", src.Schema(), src.NumRows())
+	var ptr arrow.RecordBatch
+	var replaced bool
+	var werr error
+	if p := guard(func() { ptr, replaced, werr = vgirpc.MaybeWriteToShm(src, seg) }); p != "" {
+		return 0, false, lib.Keyf("C35", "write-panic", shape), fmt.Sprintf("MaybeWriteToShm panicked on %s: %s", desc, lib.Short(p, 400))
+	}
+	if werr != nil {
+		return 0, false, lib.Keyf("C35", "write-error", shape), fmt.Sprintf("MaybeWriteToShm(%s) failed: %v", desc, werr)
+	}
+	if !replaced {
+		return 0, false, "", ""
+	}
+	wire, derr := lib.DecodeOne(lib.EncodeStream(ptr.Schema(), ptr))
+	if derr != nil {
+		return 0, false, "C35/pointer-not-encodable", fmt.Sprintf("pointer batch does not survive IPC: %v", derr)
+	}
+	var res arrow.RecordBatch
+	var rel bool
+	var rerr error
+	if p := guard(func() {
+		res, off, rel, rerr = vgirpc.ResolveShmBatch(lib.WithMeta(wire.Rec, wire.Meta.Keys(), wire.Meta.Values()), att)
+	}); p != "" {
+		return 0, false, lib.Keyf("C35", "resolve-panic", "valid", shape), fmt.Sprintf("ResolveShmBatch panicked on a valid pointer to %s: %s", desc, lib.Short(p, 400))
+	}
+	if rerr != nil {
+		return 0, false, lib.Keyf("C35", "roundtrip-refused", shape), fmt.Sprintf("pointer %v returned by MaybeWriteToShm for %s not resolved: %v", wire.Meta, desc, rerr)
+	}
+	if d := lib.BatchDiff(src, res); d != "" {
+		return 0, false, lib.Keyf("C35", "roundtrip-differs", shape), fmt.Sprintf("batch read back from shm differs (%s): %s", desc, d)
+	}
+	if d := strictSchemaDiff(src.Schema(), res.Schema()); d != "" {
+		return 0, false, lib.Keyf("C35", "roundtrip-schema-detail", shape), fmt.Sprintf("schema read back from shm differs from the written one (%s): %s", desc, d)
+	}
+	if !rel {
+		return 0, false, "C35/release-offset", "ResolveShmBatch returned release=false for a stored batch"
+	}
+	return off, true, "", ""
+}
+
 // c35ResolveBudget bounds one ResolveShmBatch call: it reads at most a few MiB
 // from memory, so not returning for this long means it is stuck, not slow.
 const c35ResolveBudget = 60 * time.Second
@@ -691,10 +897,13 @@ var propC35 = lib.Prop[c35Case]{
 	Rule: "batches of 0-24 rows over lib.GenSchema types plus forced dictionary columns (top level; inside struct / list / map / list<struct> / struct<struct>; both; none) with distinct custom metadata, " +
 		"written by MaybeWriteToShm into segments that fit amply / barely / not, at varying offsets; the pointer batch goes through my IPC codec and is resolved by a second attachment; " +
 		"then 0-6 malformed or displaced pointers (negative, signed, hex, empty, missing, spaces, > int64 / uint64, offset+length wrapping uint64, beyond the end, in the header, mid-region, into the neighbour, truncated, arbitrary strings) judged by a big-integer classifier. " +
+		"About four cases in ten first make 1-6 other writes on the same segment through the same handles, alternating between the tested batch (whole or cut to its first rows, always carrying the one schema object) and 1-2 other batches " +
+		"(a sibling of the tested schema with one field renamed to a name of the same length, an unrelated plain schema, one with a top-level dictionary), each stored, resolved and compared like the tested write (schema compared in every attribute: metadata, child names, widths) and freed or kept. " +
 		"Non-trivial: a dictionary below the top level, or a pointer whose offset+length overflows uint64.",
-	Gen:          genC35,
-	Run:          runC35,
-	Essential:    []string{"roundtrip", "twin-neighbour", "no-fit", "dict:none", "dict:top", "dict:nested", "dict:both", "overflowing-pointer", "verdict:must-error", "verdict:any", "ptr:beyond", "ptr:header", "ptr:into-other", "ptr:neg-len"},
+	Gen: genC35,
+	Run: runC35,
+	Essential: []string{"roundtrip", "twin-neighbour", "no-fit", "dict:none", "dict:top", "dict:nested", "dict:both", "overflowing-pointer", "verdict:must-error", "verdict:any", "ptr:beyond", "ptr:header", "ptr:into-other", "ptr:neg-len",
+		"history", "history:schema-object-reused-after-another", "tested-schema-object-reused-after-another", "tested-schema-object-reused-after-dictionary-read"},
 	EssentialMin: 300,
 	Assumptions: []string{"custom metadata keys of a batch are distinct", "arrow-go's IPC reader/writer (used by my codec) is trusted",
 		"a signed or zero-padded decimal naming the true region, and an in-segment region other than the written one, may be refused or resolved"},
